@@ -216,6 +216,16 @@ def byteset(e, consts, within=ALL, bytevar='byte'):
     return frozenset(b for b in within if bool(eval_byte(e, b, consts, bytevar)))
 
 
+def has_node(e, pred):
+    if isinstance(e, dict):
+        if pred(e):
+            return True
+        return any(has_node(v, pred) for v in e.values())
+    if isinstance(e, list):
+        return any(has_node(v, pred) for v in e)
+    return False
+
+
 def mentions(e, name):
     if isinstance(e, dict):
         if e.get('k') == 'path' and e.get('path') == name:
@@ -350,6 +360,7 @@ class Model:
         self._split(defn.body)
         self._find_states()
         self.paths = {}
+        self.features = {}
         self.state_consts = {}
         self.fastloops = {}
         for name in self.state_order:
@@ -457,6 +468,7 @@ class Model:
                 raise Unsupported('state %s: control falls off the end of the state body' % name)
             paths.append(Path(s2, out))
         self.fastloops[name] = ctx.fastloop
+        self.features[name] = ctx.features
         return paths
 
 
@@ -470,6 +482,7 @@ class ExecCtx:
         self.local_enums = {}
         self.local_fns = {}
         self.fastloop = None
+        self.features = set()
         self.sm = model.backend == 'sm'
 
     # returns list of (St, outcome or None)
@@ -706,6 +719,7 @@ class ExecCtx:
                     b.events.append(('eoi', val[3]))
                     return [(a, True), (b, False)]
                 if val[0] == 'lookup':
+                    self.features.add('jump_table')
                     tbl = self.consts[val[1]]
                     if st.bytes is None:
                         raise Unsupported('table lookup without a byte')
@@ -737,6 +751,11 @@ class ExecCtx:
             if st.bytes is None:
                 raise Unsupported('byte condition outside the Some(byte) branch')
             yes = byteset(cond, self.consts, st.bytes, bytevar=st.bytevar)
+            self.features.add('if_chain')
+            if has_node(cond, lambda x: x.get('k') == 'bin' and x.get('op') == '!=' and (is_path(x.get('l'), st.bytevar) or is_path(x.get('r'), st.bytevar))):
+                self.features.add('cmp_exception')
+            if has_node(cond, lambda x: x.get('k') == 'index'):
+                self.features.add('lut_test')
             res = []
             if yes:
                 a = st.copy()
@@ -755,6 +774,7 @@ class ExecCtx:
         # tail-call jump table: match TABLE[byte as usize] { LogosNextState::X => {..}, LogosNextState::___ => {} }
         if scrut.get('k') == 'index' and is_path(scrut['e']) and scrut['e']['path'] in self.consts and self.is_byte_index(scrut['idx'], st):
             tbl = self.consts[scrut['e']['path']]
+            self.features.add('jump_table')
             if st.bytes is None:
                 raise Unsupported('jump table outside the Some(byte) branch')
             out = []
